@@ -284,7 +284,8 @@ func vxLast(f *DefaultFanController) int {
 //	fan.FanCurveData           PWM->RPM samples appended by measureRpm; read only by AttachFanRpmCurveData/persistence, not by the cycle
 //
 // Every other field (including fields added later) is part of the key.
-//   fan.Pwm / fan.Rpm (hwmon), fan.Pwm (file)  write-only caches of the last value read (only the JSON API reads them)
+//
+//	fan.Pwm / fan.Rpm (hwmon), fan.Pwm (file)  write-only caches of the last value read (only the JSON API reads them)
 func vxSkipField(path string) bool {
 	switch path {
 	case "fan.Pwm":
